@@ -281,6 +281,91 @@ def run_combo(col, combo, ks=None):
             col.fail({'combo': combo, 'k': k}, why, {x: o[x] for x in ('where', 'launches', 'exits', 't_out', 't_notify', 't_kill', 'exitReason', 'retries_left', 'errors', 't_primed')}, sig=sig)
 
 
+# ------------------------------------------------------------------ part B: observers inside the real controller
+def b_scenarios(thorough):
+    """(workflow, exit labels, durations): observers whose producers live for a while and finish at different times."""
+    out = [('observer', {}, {'stage0.B': 12.0}), ('observer', {}, {'stage0.A': 6.0, 'stage0.B': 12.0}),
+           ('observer2', {}, {'stage0.P': 12.0}), ('observer2', {}, {'stage0.P': 12.0, 'stage0.Q': 30.0}),
+           ('observer-2subj', {}, {'stage0.S1': 8.0, 'stage0.S2': 14.0}), ('observer-2subj', {}, {'stage0.S1': 14.0, 'stage0.S2': 8.0}),
+           ('observer-2subj', {}, {'stage0.S1': 3.0, 'stage0.S2': 12.0}),
+           ('observer-2subj', {}, {'stage0.A': 9.0, 'stage0.S1': 17.0, 'stage0.S2': 20.0}),
+           ('xobserver', {}, {'stage0.A': 12.0}), ('xobs-mixed', {}, {'stage0.P': 5.0, 'stage1.S': 12.0}),
+           ('observer', {'stage0.B': 'RS'}, {'stage0.B': 8.0}), ('observer-2subj', {'stage0.S2': 'RS'}, {'stage0.S1': 7.0, 'stage0.S2': 8.0})]
+    if thorough:
+        out += [('observer-2subj', {}, {'stage0.S1': a, 'stage0.S2': b}) for a in (0.0, 4.0, 9.0, 16.0) for b in (0.0, 4.0, 9.0, 16.0)]
+    return out
+
+
+def judge_b(x, meta):
+    """C13 on a controller-level execution, from the event log."""
+    bad = []
+    outs, launches, finals = {}, {}, {}
+    for e in x.events:
+        if e['kind'] == 'output':
+            outs.setdefault(e['ref'], []).append(e['t'])
+        elif e['kind'] == 'launch':
+            launches.setdefault(e['ref'], []).append(e['t'])
+        elif e['kind'] == 'comp-finish':
+            finals.setdefault(e['ref'], e['t'])
+    for n, mm in meta.items():
+        if not mm['repeat']:
+            continue
+        same = [p for p in mm['producers'] if meta[p]['stage'] == mm['stage']]
+        ls = launches.get(n, [])
+        # (i) never executes before there is output of every same-stage producer it consumes from
+        for t in ls:
+            for p in same:
+                if not outs.get(p) or min(outs[p]) > t:
+                    bad.append(('observer %s launched at t=%.6f before its producer %s had produced any output' % (n, t, p), 'C13:B:launch-before-output'))
+                    break
+            else:
+                continue
+            break
+        st = x.final.get(n, {}).get('state')
+        prods_ok = all(x.final.get(p, {}).get('state') == 'finished' for p in mm['producers'])
+        if st == 'finished' and prods_ok and same:
+            t_o = max(max(outs[p]) for p in same if outs.get(p)) if any(outs.get(p) for p in same) else None
+            if t_o is not None and all(outs.get(p) for p in same) and not any(t > t_o for t in ls):
+                bad.append(('observer %s finished although it never started an execution after the last output (t=%.6f) of its producers %s; launches at %s' % (
+                    n, t_o, same, [round(t, 3) for t in ls]), 'C13:B:final-output-missed'))
+    return bad
+
+
+def run_b_one(col, scn, prefix):
+    from verif.vsched import ctl, harness as h
+    hs, meta, ms, at, st = ctl.build(scn)
+    h.install()
+    h.H.on_launch = None
+    x = h.execute(hs, prefix, want_fps=False)
+    col.evaluated()
+    col.traces += 1
+    col.transitions += x.steps
+    col.nontriv({'b': scn['id'], 'prefix': prefix})
+    col.outcome('B:%s:%s' % (scn['wf'], x.result.get('ret')))
+    if x.result.get('ret') != 'done':
+        return x   # non-termination is C02's business
+    seen = set()
+    for why, sig in judge_b(x, meta):
+        if sig not in seen:
+            seen.add(sig)
+            col.fail({'part': 'B', 'scenario': scn, 'choices': prefix}, why,
+                     {'final': {n: f.get('state') for n, f in x.final.items()}}, sig=sig)
+    return x
+
+
+def worker_b(col, item, tier, seed):
+    scn, positions = item
+    x = run_b_one(col, scn, [])
+    if positions is None:
+        col.payload.append(('B', scn['id'], x.points))
+        return
+    for i in positions:
+        if i >= len(x.points):
+            break
+        for alt in range(1, x.points[i]):
+            run_b_one(col, scn, [0] * i + [alt])
+
+
 def worker(col, item, tier, seed):
     try:
         for combo in item:
@@ -292,6 +377,25 @@ def worker(col, item, tier, seed):
 
 
 def run(ctx):
+    from verif.core.runner import case_id
+    bs = []
+    for wf, labels, dur in b_scenarios(ctx.thorough):
+        sc = {'wf': wf, 'labels': labels, 'dur': dur}
+        sc['id'] = case_id(sc)
+        bs.append(sc)
+    ctx.count('controller_level_observer_scenarios', len(bs))
+    ctx.pmap('verif.props.c13', 'worker_b', [(sc, None) for sc in bs], maxtasksperchild=8)
+    pts = {sid: p for tag, sid, p in ctx.payload if tag == 'B'}
+    ctx.payload = []
+    deep = [sc for sc in bs if sc['wf'] == 'observer-2subj'][:(len(bs) if ctx.thorough else 1)]
+    items = []
+    for sc in deep:
+        n = len(pts[sc['id']])
+        step = max(1, n // 16)
+        items += [(sc, list(range(lo, min(n, lo + step)))) for lo in range(0, n, step)]
+    ctx.count('controller_level_scenarios_with_all_1_deviation_schedules', len(deep))
+    ctx.pmap('verif.props.c13', 'worker_b', items, maxtasksperchild=4)
+    ctx.payload = []
     cs = list(combos(ctx.thorough))
     ctx.count('combos', len(cs))
     items = [[c] for c in cs]
@@ -301,6 +405,9 @@ def run(ctx):
 
 
 def replay(ctx, case):
+    if case.get('part') == 'B':
+        run_b_one(ctx, case['scenario'], case['choices'])
+        return
     try:
         o = execute(case['combo'], case['k'])
         ctx.evaluated()
